@@ -61,6 +61,7 @@ class AstGen:
         if c < 0.60:
             v = self.val()
             if r.random() < 0.06: v = bytes(r.getrandbits(8) for _ in range(r.choice([255, 256, 257, 300, 1000])))
+            elif depth == 0 and r.random() < 0.006: v = os.urandom(1) * r.choice([32767, 32768, 40000, 65535])       # the upper half of the two-byte size range (top level only: a block holds 65535 bytes)
             if len(v) == 1: return ('s8', 'PUSH0', v[0])
             if len(v) < 256: return ('push1', v)
             return ('push2', v)
@@ -411,6 +412,27 @@ def macro_history(rng, stats, viol, src_model):
                     viol.append(dict(what='a macro source does not compile to the bytes of the same source with the template written out (%s)' % outc,
                                      source=src, written_out=flat, expected=want.hex(), got=(got.hex() if got is not None else None)))
             src_model(src, got, outc, 'macro-history')
+    # a macro defined or REDEFINED inside a comptime block is the macro of the code after the block (documented: "macros defined within
+    # comptime blocks can be invoked outside of them")
+    for src, flat in (('push ~ { != k [ ] { true } !k [ ] } !k [ ]', 'push ~ { true } true'),
+                      ('!= m [ ] { true } push ~ { != m [ ] { false } !m [ ] } !m [ ]', 'push ~ { false } false'),
+                      ('!= m [ ] { true } !m [ ] push ~ { != m [ ] { false } } !m [ ]', 'true push x false') ,
+                      ('!= p [ a ] { push a } push ~ { push ~ { != p [ a ] { push a not } false } } !p [ x07 ]', 'push ~ { push ~ { false } } push x07 not')):
+        stats['compile:macro-in-comptime'] += 1
+        try:
+            want = P.compile_script(flat)
+        except BaseException:
+            want = None
+        try:
+            got, outc = P.compile_script(src), 'ok'
+        except BaseException as e:
+            got, outc = None, type(e).__name__
+        if got != want:
+            stats['direct-fail'] += 1
+            if len(viol) < 8:
+                viol.append(dict(what='a macro (re)defined inside a comptime block is not the macro of the code after the block (%s)' % outc,
+                                 source=src, written_out=flat, expected=(want.hex() if want is not None else None), got=(got.hex() if got is not None else None)))
+        src_model(src, got, outc, 'macro-in-comptime')
     # macros of two parameters whose NAMES read like values (d1, x0a ...), invoked with arguments spelled like the other parameter's name:
     # every parameter is replaced by its own argument, once (the arguments are not substituted again)
     f0, f1 = rng.choice([('d1', 'd2'), ('x0a', 'x0b'), ('d2', 'd1'), ('x01', 'd1')])
@@ -761,8 +783,13 @@ def c12_task(task):
                 else:
                     stats['listing-text:unm'] += 1
     # exhaustive short strings
-    if seed % 1000003 == 0 or True:
-        pass
+    # compiler output holding a push from the upper half of the two-byte size range (once per task; top level and inside a block)
+    for L_ in (32767, 32768, rng.choice([40000, 65000]), 65535):
+        for tmpl_ in ('OP_PUSH x%s', 'OP_TRUE OP_PUSH x%s OP_POP0') + (('OP_IF { OP_PUSH x%s }',) if L_ < 65000 else ()):
+            try:
+                one(P.compile_script(tmpl_ % (bytes([rng.getrandbits(8)]) * L_).hex()), 'compiler')
+            except BaseException:
+                stats['large-push-not-compiled'] += 1
     for it in range(n):
         c = rng.random()
         if c < 0.35:
